@@ -102,5 +102,5 @@ Example c12_history :
   nth 3%nat o [] = [Out "new" (OConnAck 0); Deadline "new" 120000]
   ∧ nth 7%nat o [] = [Closed "old"]
   ∧ nth 8%nat o [] = [Out "new" OPingResp; Deadline "new" 120000]
-  ∧ match nth 10%nat o [] with [Listed _ ss sb reg] => map m_sid ss = ["s002"; "s003"] ∧ map s_sid sb = ["s002"] ∧ reg = ["s002"] | _ => False end.
+  ∧ match nth 10%nat o [] with [Listed _ ss sb reg _] => map m_sid ss = ["s002"; "s003"] ∧ map s_sid sb = ["s002"] ∧ reg = ["s002"] | _ => False end.
 Proof. vm_compute. done. Qed.
